@@ -115,6 +115,13 @@ def _m_split_mig():
     return dadi.Numerics.make_extrap_func(dadi.Demographics2D.split_mig)
 
 
+@model('lib')
+def _m_lib(mod, name):
+    """library model through make_extrap_func"""
+    import dadi
+    return dadi.Numerics.make_extrap_func(getattr(getattr(dadi, mod), name))
+
+
 @model('growth_raw')
 def _m_growth_raw():
     import dadi
@@ -388,6 +395,7 @@ def _load():
     reg('LP.compute_cov_dist', _cov_dist, group='lowpass')
     reg('LP.lowpass_from_dd', _lowpass_from_dd, group='lowpass')
     reg('optimize_grid', _optimize_grid, group='opthelp')
+    reg('nlopt_opt', _nlopt_opt, group='opthelp')
     # ---- demes
     reg('ORACLE.demes_output_twice', _demes_output_twice, group='demes')
     reg('cuda_enabled', lambda toggle=None: dadi.cuda_enabled(toggle), group='integrate')
@@ -437,6 +445,13 @@ def _lowpass_from_dd(model_fn, params, nsub, pts, dd, pop_ids, nseq):
     cov = LP.compute_cov_dist(dd, pop_ids)
     f = LP.make_low_pass_func_GATK_multisample(model_fn, cov, pop_ids, list(nseq), list(nsub), sim_threshold=1.0)
     return f(params, nsub, pts)
+
+
+def _nlopt_opt(p0, data, model_fn, pts, **kw):
+    """a short, deterministic local optimisation (BOBYQA, evaluation cap); returns the point found and its likelihood"""
+    import dadi
+    popt, llopt = dadi.Inference.opt(list(p0), data, model_fn, pts, **kw)
+    return [np.asarray(popt, dtype=float), float(llopt)]
 
 
 def _optimize_grid(data, model_fn, pts, grid, **kw):
